@@ -614,6 +614,14 @@ def handle_failure(ctx, stream, np, ops, r, ofail, label):
     site = getattr(stream, 'site', None)
     log('[%s] stream %s %s: %s at op %s' % (ctx.prop, stream.name, label, status, r['first_diff']))
 
+    # a batch whose oracle failures ALL carry the site of one listed known finding is reported at once (no shrinking: the
+    # finding is identified by its site, and shrinking it again for every batch and rank count only costs time)
+    if status == 'ok' and ofail and all(len(f) > 2 for f in ofail) and len({f[2] for f in ofail}) == 1:
+        s0 = ofail[0][2]
+        if any(ctx.prop in [k.get('property')] + list(k.get('also', [])) and k.get('status') == 'known' and
+               k.get('site') == s0 for k in load_known()):
+            report(ctx, None, None, True, ofail[0][1], site=s0)
+            return
     # failures tagged with a known-finding site (third tuple element) must never mask an untagged one: when the
     # original batch has an untagged oracle failure the shrinker has to keep an untagged failure
     has_untagged = any(len(f) < 3 for f in (ofail or []))
